@@ -662,7 +662,7 @@ integrity: declared integrity first, then declared size. -/
 def declCheck (o : WriteOpts) (written : Nat) (wsri : Integrity) : Res Integrity :=
   match o.sri with
   | some s =>
-    if (Sri.matchesSri s wsri).isNone then .error .integrity
+    if (Sri.declaredOk s wsri).isNone then .error .integrity
     else (match o.size with
       | some n => if n ≠ written then .error (.size n written) else .ok s
       | none => .ok s)
